@@ -137,4 +137,117 @@ Proof.
   peel.
 Qed.
 
+
+Lemma split_byte_none c s : no_byte c s = true -> split_byte c s = [s].
+Proof.
+  induction s as [|a s IH]; simpl; auto. intros H. apply andb_true_iff in H as [Ha Hs].
+  apply negb_true_iff in Ha. rewrite Ha, IH by auto. reflexivity.
+Qed.
+
+Lemma split_byte_two c a b :
+  no_byte c a = true -> no_byte c b = true -> split_byte c (a ++ String c b) = [a; b].
+Proof.
+  intros Ha Hb. induction a as [|x a IH]; simpl.
+  - rewrite Ascii.eqb_refl. now rewrite split_byte_none.
+  - simpl in Ha. apply andb_true_iff in Ha as [Hx Ha]. apply negb_true_iff in Hx.
+    rewrite Hx, IH by auto. reflexivity.
+Qed.
+
+Lemma split_join l : forallb (no_byte ",") l = true -> l <> [] -> split_byte "," (join "," l) = l.
+Proof.
+  induction l as [|x l IH]; [congruence|]. intros H _. cbn [forallb] in H. apply andb_true_iff in H as [Hx Hl].
+  destruct l as [|y l]; [cbn [join]; now apply split_byte_none|].
+  change (join "," (x :: y :: l)) with (x ++ String "," (join "," (y :: l))).
+  assert (E := IH Hl ltac:(discriminate)).
+  clear IH. revert E. generalize (join "," (y :: l)). intros r E.
+  induction x as [|a x IHx]; simpl.
+  - now rewrite E.
+  - simpl in Hx. apply andb_true_iff in Hx as [Ha Hx]. apply negb_true_iff in Ha. rewrite Ha.
+    rewrite IHx by auto. reflexivity.
+Qed.
+
+Lemma join_quoted_ok l : forallb codec_ok l = true -> quoted_ok (join "," l) = true.
+Proof.
+  induction l as [|x l IH]; [reflexivity|]. cbn [forallb]. intros H. apply andb_true_iff in H as [Hx Hl].
+  unfold codec_ok in Hx. split_and Hx.
+  assert (Q : quoted_ok x = true) by assumption.
+  destruct l as [|y l]; [exact Q|].
+  change (join "," (x :: y :: l)) with (x ++ String "," (join "," (y :: l))).
+  specialize (IH Hl). unfold quoted_ok in *. apply andb_true_iff in Q as [A B]. apply andb_true_iff in IH as [C D].
+  rewrite no_crlf_app, no_byte_app, A, B. rewrite no_crlf_string. cbn [no_byte]. rewrite C, D. reflexivity.
+Qed.
+
+Lemma codecs_no_comma l : forallb codec_ok l = true -> forallb (no_byte ",") l = true.
+Proof.
+  induction l as [|x l IH]; [reflexivity|]. cbn [forallb]. intros H. apply andb_true_iff in H as [Hx Hl].
+  unfold codec_ok in Hx. split_and Hx. assert (N : no_byte "," x = true) by assumption. now rewrite N, IH.
+Qed.
+
+Lemma rate_attr_ok2 f : attr_ok2 ("FRAME-RATE", AU (fmt_rate orc f)) = true.
+Proof. apply num_attr_ok2; auto. apply (ok_rate_chars orc OK f). Qed.
+
+Lemma forallb_optm {A} (o : option A) (f : A -> string * aval) :
+  forallb attr_ok2 (match o with Some x => [f x] | None => [] end) =
+  match o with Some x => attr_ok2 (f x) | None => true end.
+Proof. destruct o; cbn [forallb]; [apply andb_true_r|reflexivity]. Qed.
+
+Lemma variant_attrs_ok v : wf_variant v = true -> forallb attr_ok2 (variant_attrs v) = true.
+Proof.
+  unfold wf_variant. intros H. split_and H. apply int31_range in H.
+  unfold variant_attrs. rewrite !forallb_app, !forallb_opt_list.
+  rewrite (forallb_optm (v_avgbandwidth v) (fun x => ("AVERAGE-BANDWIDTH", AU (fmt_int x)))).
+  rewrite (forallb_optm (v_framerate v) (fun f => ("FRAME-RATE", AU (fmt_rate orc f)))).
+  cbn [forallb]. rewrite int_attr_ok2 by (auto; lia).
+  rewrite quoted_attr_ok2 by (auto using join_quoted_ok).
+  destruct (v_avgbandwidth v) as [ab|]; cbn [opt_ok] in *;
+    [match goal with Hx : int31 ab = true |- _ => apply int31_range in Hx end; rewrite int_attr_ok2 by (auto; lia)|];
+  (destruct (v_framerate v); [rewrite rate_attr_ok2|]);
+  destruct (String.eqb (v_resolution v) "") eqn:Er, (String.eqb (v_video v) ""), (String.eqb (v_audio v) ""),
+    (String.eqb (v_subtitles v) ""), (String.eqb (v_closedcaptions v) ""); cbn [negb orb] in *;
+    rewrite ?quoted_attr_ok2, ?unquoted_attr_ok2 by auto; reflexivity.
+Qed.
+
+
+Lemma uri_line_no_lf u : uri_line_ok u = true -> no_byte LF u = true /\ String.eqb u "" = false /\ (exists c r, u = String c r /\ Ascii.eqb c "#" = false).
+Proof.
+  unfold uri_line_ok, no_crlf. intros H. split_and H. split; [assumption|].
+  destruct u as [|c r]; [discriminate|]. split; [reflexivity|]. exists c, r. split; auto.
+  match goal with Hx : negb _ = true |- _ => now apply negb_true_iff in Hx end.
+Qed.
+
+Local Arguments split_byte : simpl never.
+Local Arguments join : simpl never.
+
+Lemma variant_roundtrip v : wf_variant v = true ->
+  variant_unmarshal orc (render_attrs (variant_attrs v) ++ lf ++ v_uri v) = Ok v.
+Proof.
+  intros Hwf. pose proof (variant_attrs_ok v Hwf) as Hok.
+  pose proof (render_attrs_no_crlf _ Hok) as Hnl. unfold no_crlf in Hnl. apply andb_true_iff in Hnl as [Hnl _].
+  unfold wf_variant in Hwf. split_and Hwf.
+  assert (Hu : uri_line_ok (v_uri v) = true) by assumption.
+  destruct (uri_line_no_lf _ Hu) as (Hu1 & Hu2 & c & r & Eu & Hc).
+  unfold variant_unmarshal. unfold lf. change (String LF "" ++ v_uri v) with (String LF (v_uri v)).
+  rewrite split_byte_two by assumption. unfold list_at. cbn [nth_error bind].
+  rewrite attrs_unmarshal_render by (apply attr_ok2_ok, Hok). cbn [bind]. clear Hok Hnl.
+  assert (Hcod : split_byte "," (join "," (v_codecs v)) = v_codecs v).
+  { apply split_join; [apply codecs_no_comma; assumption|].
+    match goal with Hx : negb (Nat.eqb (List.length (v_codecs v)) 0) = true |- _ =>
+      destruct (v_codecs v); [discriminate Hx|discriminate] end. }
+  assert (Hbw : parse_uint 31 (fmt_int (v_bandwidth v)) = Some (v_bandwidth v))
+    by (apply parse_uint_fmt_int, int31_range; assumption).
+  unfold variant_attrs, opt_list in *.
+  destruct v as [bw codecs uri avg res fr vid aud sub cc];
+    cbn [v_bandwidth v_codecs v_uri v_avgbandwidth v_resolution v_framerate v_video v_audio v_subtitles v_closedcaptions] in *.
+  subst uri.
+  destruct avg as [ab|], fr as [f|]; cbn [opt_ok] in *;
+  try (assert (Hab : parse_uint 31 (fmt_int ab) = Some ab) by (apply parse_uint_fmt_int, int31_range; assumption));
+  try (assert (Hfr : parse_rate orc (fmt_rate orc f) = Some f) by (apply (ok_rate orc OK); assumption));
+  destruct (String.eqb res "") eqn:E1, (String.eqb vid "") eqn:E2, (String.eqb aud "") eqn:E3,
+    (String.eqb sub "") eqn:E4, (String.eqb cc "") eqn:E5;
+    cbn; rewrite ?Hbw, ?Hab, ?Hfr, ?Hcod; cbn; rewrite ?Hbw, ?Hab, ?Hfr, ?Hcod; cbn; rewrite ?Hc; cbn;
+    repeat match goal with
+    | H : String.eqb _ "" = true |- _ => apply String.eqb_eq in H; subst
+    end; reflexivity.
+Qed.
+
 End WithOracles.
